@@ -16,7 +16,7 @@ import (
 var (
 	smA = CfgLit{Origins: []string{"https://a.example", "https://*.a.example", "https://xn--bcher-kva.example:49152", "app+v1.0://host-1.internal:10000", "https://*.example.co.uk:*"}, Methods: []string{"PUT", "PATCH", "M-SEARCH", "a*b!c"},
 		RequestHeaders: []string{"X-A", "X-B", "X-Api_Key.v2", "x-trace~id", "Content-Type"}, ResponseHeaders: []string{"X-R", "ETag", "x_odd.name~1"}, MaxAge: 600, Status: 201, TolPSL: true}
-	smB       = CfgLit{Origins: []string{"http://b.example:*"}, Credentialed: true, PNA: true, TolInsecure: true, Methods: []string{"DELETE"}, RequestHeaders: []string{"X-C", "Authorization"}, ResponseHeaders: []string{"X-S", "X-T"}, MaxAge: -1, Status: 200}
+	smB       = CfgLit{Origins: []string{"http://b.example:*", "https://*.github.io"}, Credentialed: true, PNA: true, TolInsecure: true, TolPSL: true, Methods: []string{"DELETE"}, RequestHeaders: []string{"X-C", "Authorization"}, ResponseHeaders: []string{"X-S", "X-T"}, MaxAge: -1, Status: 200}
 	smC       = CfgLit{Origins: []string{"*"}, Methods: []string{"*"}, RequestHeaders: []string{"*"}, ResponseHeaders: []string{"*"}}
 	smInvalid = CfgLit{Origins: []string{"https://c.example", "https://c.example/path"}, Methods: []string{"QUERY"}, MaxAge: 10}
 	smD       = CfgLit{Origins: []string{"https://d.example", "https://a.example"}, Credentialed: true, Methods: []string{"PUT", "*"}, RequestHeaders: []string{"X-Trace-Id", "*", "x-a"}, ResponseHeaders: []string{"X-R"}, MaxAge: 600}
